@@ -94,17 +94,19 @@ def run(ctx):
     # ------------------------------------------------------------------ rule 2
     er = repo.func(f"{T}.fix_exec_report_msg")
     g = CFG(er)
+    erm = next((r_ for q_, f_, r_ in factories if q_ == f"{T}.fix_exec_report_msg"), "m")
+    ordp = er.args.args[1].arg
     rets = [n for n in g.nodes if n.kind == "stmt" and isinstance(n.ast, ast.Return)]
     asserts = [n for n in g.nodes if n.kind == "stmt" and isinstance(n.ast, ast.Assert)]
     tag_locals = {}
     for n in g.nodes:
-        if n.kind == "stmt" and isinstance(n.ast, ast.Assign) and isinstance(n.ast.targets[0], ast.Subscript) and unparse(n.ast.targets[0].value) == "m":
+        if n.kind == "stmt" and isinstance(n.ast, ast.Assign) and isinstance(n.ast.targets[0], ast.Subscript) and unparse(n.ast.targets[0].value) == erm:
             t = fo.tag(n.ast.targets[0].slice)
             if isinstance(n.ast.value, ast.Name):
                 tag_locals[t] = (n.ast.value.id, n)
         if n.kind == "stmt":
             for c in walk_no_nested(n.ast):
-                if isinstance(c, ast.Call) and unparse(c.func) == "order.set_price_qty" and len(c.args) == 3:
+                if isinstance(c, ast.Call) and unparse(c.func) == f"{ordp}.set_price_qty" and len(c.args) == 3:
                     sp = repo.func("FIXNewOrderSingle.set_price_qty")
                     ps = [a.arg for a in sp.args.args][1:]
                     amap = dict(zip(ps, c.args))
@@ -232,10 +234,15 @@ def run(ctx):
                  loc(own_logic[0][1]) if own_logic else loc(init))
     # the initiator's frames reach the acceptor as the bytes that were written
     wi = repo.func(f"{T}._conn_socket_write_initiator")
-    ok = "self.acceptor_rcv_que.append((msg, data))" in [unparse(s) for s in walk_no_nested(wi) if isinstance(s, ast.Expr)] and "_codec.decode(data, silent=False)" in unparse(wi)
+    dparam = wi.args.args[1].arg
+    dec_local = next((unparse(n.targets[0].elts[0]) for n in walk_no_nested(wi) if isinstance(n, ast.Assign) and isinstance(n.targets[0], ast.Tuple)
+                      and f"_codec.decode({dparam}, silent=False)" in unparse(n.value)), None)
+    ok = dec_local is not None and f"self.acceptor_rcv_que.append(({dec_local}, {dparam}))" in [unparse(s) for s in walk_no_nested(wi) if isinstance(s, ast.Expr)]
     ctx.instance(R4, "_conn_socket_write_initiator[queues the decoded message with its bytes]", ok, "the initiator's frame is not queued as (decoded message, written bytes)", loc(wi))
     pa = repo.func(f"{T}.process_msg_acceptor")
-    ok = "await self.conn_accept._process_message(msg, raw)" in unparse(pa) and ".pop(0 if index is None else index)" in unparse(pa)
+    popped = next(([unparse(e) for e in n.targets[0].elts] for n in walk_no_nested(pa) if isinstance(n, ast.Assign) and isinstance(n.targets[0], ast.Tuple)
+                   and ".pop(0 if index is None else index)" in unparse(n.value) and "acceptor_rcv_que" in unparse(n.value)), None)
+    ok = popped is not None and len(popped) == 2 and f"await self.conn_accept._process_message({popped[0]}, {popped[1]})" in unparse(pa)
     ctx.instance(R4, "process_msg_acceptor[FIFO hand-over]", ok, "queued frames are not handed to the acceptor in the order they were sent", loc(pa))
 
 
